@@ -2802,7 +2802,27 @@ impl WasmGenerator {
                     vec![]
                 };
                 let num_upvalues = upindexes.len();
-                let closure_size_bytes = ((1 + num_upvalues) as u32) * 8;
+                // A captured tuple/record ARGUMENT arrives as separate words; the closure keeps
+                // its own copy of them behind the upvalue slots (`emit_value_load` would spill
+                // them to one fixed address shared by every call of this function).
+                let captured_arg_words: Vec<Option<(u32, u32)>> = upindexes
+                    .iter()
+                    .map(|(upindex, _)| match upindex.as_ref() {
+                        mir::Value::Argument(arg_idx) => self
+                            .current_arg_map
+                            .get(*arg_idx)
+                            .copied()
+                            .filter(|&(_, words)| words > 1),
+                        _ => None,
+                    })
+                    .collect();
+                let arg_copy_words: u32 = captured_arg_words
+                    .iter()
+                    .flatten()
+                    .map(|&(_, words)| words)
+                    .sum();
+                let mut arg_copy_offset = ((1 + num_upvalues) as u32) * 8;
+                let closure_size_bytes = ((1 + num_upvalues) as u32 + arg_copy_words) * 8;
 
                 // Runtime allocation: base address saved in alloc_base_local
                 self.emit_runtime_alloc(closure_size_bytes, func);
@@ -2904,6 +2924,30 @@ impl WasmGenerator {
                                 align: 3,
                                 memory_index: 0,
                             }));
+                        }
+                        mir::Value::Argument(_) if captured_arg_words[i].is_some() => {
+                            // Tuple/record argument: copy its words behind the slots and
+                            // capture the address of the copy.
+                            let (param_start, words) = captured_arg_words[i].unwrap();
+                            for w in 0..words {
+                                let param_idx = param_start + w;
+                                func.instruction(&W::LocalGet(self.alloc_base_local));
+                                func.instruction(&W::LocalGet(param_idx));
+                                let memarg = MemArg {
+                                    offset: (arg_copy_offset + w * 8) as u64,
+                                    align: 3,
+                                    memory_index: 0,
+                                };
+                                match self.current_arg_types.get(param_idx as usize) {
+                                    Some(ValType::F64) => func.instruction(&W::F64Store(memarg)),
+                                    _ => func.instruction(&W::I64Store(memarg)),
+                                };
+                            }
+                            func.instruction(&W::LocalGet(self.alloc_base_local));
+                            func.instruction(&W::I32Const(arg_copy_offset as i32));
+                            func.instruction(&W::I32Add);
+                            func.instruction(&W::I64ExtendI32U);
+                            arg_copy_offset += words * 8;
                         }
                         _ => {
                             // Direct value (non-alloc register, argument, etc.)
